@@ -278,9 +278,11 @@ void vp_thread_main(void) {
 
 /* ------------------------------------------------------------------ one execution */
 static void ctx_init(int t) {
-  uint64_t *sp = (uint64_t *)(stacks[t] + STACKSZ - 64);
+  /* 1 KiB below the top: an access of unknown length (rep stos zeroing a local) is taken as 256 bytes long, and
+     whatever follows the stack in memory (the arena with the atomic object) must not fall into that range */
+  uint64_t *sp = (uint64_t *)(stacks[t] + STACKSZ - 1024);
   /* vp_switch pops r15 r14 r13 r12 rbx rbp then returns into vp_tramp with %rsp 16-byte aligned */
-  *--sp = (uint64_t)vp_tramp;        /* after the ret %rsp = stack top - 64, which is 16-byte aligned */
+  *--sp = (uint64_t)vp_tramp;        /* after the ret %rsp = stack top - 1024, which is 16-byte aligned */
   for (int i = 0; i < 6; i++) *--sp = 0;
   ctx[t].rsp = sp;
   memcpy(ctx[t].fx, fx_template.fx, 512);
